@@ -75,6 +75,7 @@ namespace vh
     inline void vclock_start(long long start_ms, long long tick_ms) { g_vclock_ns = start_ms * 1000000LL; g_vclock_tick_ns = tick_ms * 1000000LL; g_vclock_reads = 0; g_vclock_on = true; }
     inline void vclock_stop() { g_vclock_on = false; }
     inline long long vclock_ms() { return g_vclock_ns / 1000000LL; }
+    inline void vclock_advance_ms(long long ms) { g_vclock_ns += ms * 1000000LL; }
     inline long long vclock_reads() { return g_vclock_reads; }
 }
 
